@@ -8,7 +8,7 @@ REPO=$(cd "$1" && pwd); CASE=$(cd "$2" && pwd); shift 2
 export GOFLAGS=-mod=mod GOPROXY=off GOSUMDB=off GOTOOLCHAIN=local GOWORK=off
 T=$(mktemp -d); trap 'rm -rf "$T"' EXIT
 (cd "$REPO" && go build -o "$T/cff" ./cmd/cff)
-mkdir "$T/m"; cp "$CASE"/*.go "$T/m/"
+mkdir "$T/m"; cp -r "$CASE"/. "$T/m/"
 cat > "$T/m/go.mod" <<EOM
 module example.com/a
 
